@@ -74,6 +74,7 @@ const PANIC_TABLE: &[(&str, &str)] = &[
     ("generated_file_header should not be a multi-line", "config-multiline-header"),
     ("Lists are not supported here", "lists-not-supported"),
     ("Expected to find a variable defined at the root", "variable-not-defined-at-root"),
+    ("Expected query node to exist", "expected-query-node-to-exist"),
 ];
 
 /// narrow class of a panic message / of the CLI's stderr
@@ -601,7 +602,7 @@ fn ts_failure_cause(path: &str, content: &str) -> &'static str {
         }
     }
     // F11: `friend(n: -5)` gets the alias `friend____n___l_-5`, printed as an unquoted property name
-    if content.contains("___l_-") {
+    if content.contains("_l_-") {
         return "negative-int-alias";
     }
     if content.matches("*/").count() > content.matches("/**").count() + content.matches("/* ").count() {
@@ -1075,7 +1076,7 @@ fn gen_crash(r: &mut Rng, i: u64) -> Vec<String> {
     // HX_STREAM=<name>: only that generated-project stream (used when exploring one defect switch)
     if let Ok(s) = std::env::var("HX_STREAM") {
         let p = generate(r, &stream_opts(&s));
-        let op = if matches!(s.as_str(), "valid" | "cycle" | "lwrs" | "ptu") { "cm" } else { "co" };
+        let op = if matches!(s.as_str(), "valid" | "cycle" | "lwrs") { "cm" } else { "co" };
         return vec![format!("{op}\t{s}\t{}", to_wire(&p))];
     }
     // the share of each stream is fixed by the index so that every run covers all of them
@@ -1094,7 +1095,7 @@ fn gen_crash(r: &mut Rng, i: u64) -> Vec<String> {
         }
         8 => {
             let p = generate(r, &stream_opts("ptu"));
-            vec![format!("cm\tptu\t{}", to_wire(&p))]
+            vec![format!("co\tptu\t{}", to_wire(&p))]
         }
         9 | 10 => {
             let s = *r.pick(&["lnr", "vas", "xtp", "pv", "upv"]);
